@@ -6,6 +6,7 @@ import WorkflowModel.Model.Adapters.RefStore
 import WorkflowModel.Model.Adapters.RefStream
 import WorkflowModel.Model.Adapters.RefTimeouts
 import WorkflowModel.Model.Adapters.SqlStore
+import WorkflowModel.Model.Launch
 /-! Line-protocol driver for the correspondence check (T3). One command per input line, one answer per
 output line. Core-only imports, so it links as `lean_exe wfdriver`. Unknown commands answer `bad-op`
 (never a default). -/
@@ -286,6 +287,29 @@ def step (args : List String) : Option String :=
 
 end WbDrv
 
+namespace LaunchDrv
+open WorkflowModel WorkflowModel.Launch
+
+def pairs (v : String) : Option (List (String × Int)) :=
+  if v == "-" then some [] else (v.splitOn ",").mapM (fun e => match e.splitOn ":" with
+    | [a, b] => do some (a, ← b.toInt?)
+    | _ => none)
+def ints (v : String) : Option (List Int) := if v == "-" then some [] else (v.splitOn ",").mapM String.toInt?
+
+/-- launch <name with + for space> <defaultPar> <steps st:par,..> <timeouts st,..> <tstore 0|1> <conns name:par,..> <hooks rs,..> <retry 0|1> -/
+def step (args : List String) : Option String :=
+  match args with
+  | [name, dp, steps, tos, tstore, conns, hooks, retry] => do
+    let sts ← pairs steps
+    let stsI ← sts.mapM (fun (a, b) => do some ((← a.toInt?), b))
+    let cs ← pairs conns
+    let c : Cfg := { name := Text.ofString (name.replace "+" " "), defaultPar := ← dp.toInt?, steps := stsI, timeouts := ← ints tos, timeoutStore := tstore == "1",
+                     connectors := cs.map (fun (a, b) => (Text.ofString (a.replace "+" " "), b)), hooks := ← ints hooks, retry := retry == "1" }
+    some (",".intercalate ((roles c).map Text.toString))
+  | _ => none
+
+end LaunchDrv
+
 structure Aux where
   rs : WorkflowModel.RefStore.Store := {}
   st : WorkflowModel.RefStream.Stream := {}
@@ -314,6 +338,10 @@ partial def loop (h : IO.FS.Stream) (out : IO.FS.Stream) (cfg : WorkflowModel.En
   | "st" :: rest =>
     match StDrv.step rs.st rest with
     | some (st', ans) => out.putStrLn ans; out.flush; loop h out cfg sys { rs with st := st' }
+    | none => out.putStrLn "bad-op"; out.flush; loop h out cfg sys rs
+  | "launch" :: rest =>
+    match LaunchDrv.step rest with
+    | some ans => out.putStrLn ans; out.flush; loop h out cfg sys rs
     | none => out.putStrLn "bad-op"; out.flush; loop h out cfg sys rs
   | "wb" :: rest =>
     match WbDrv.step rest with
